@@ -105,33 +105,38 @@ def buildFields (N : List (String × Addr)) : Heap → List ExtField → Heap ×
 
 def assocD {α} (l : List (String × List α)) (n : String) : List α := ((l.find? (·.1 == n)).map (·.2)).getD []
 
-/-- `_extend_object_type` / `_extend_interface_type` / `_extend_union_type` / `_extend_enum_type` /
-    `_extend_input_object_type` / `_extend_scalar_type`: the rebuilt object is written at `N[name]` -/
+/-- the rebuilt members of a type: `_extend_field` / `_extend_argument` of the old ones, then the ones the extension adds -/
+def extendKids (cfg : Cfg) (ext : Ext) (N Nin : List (String × Addr)) (h : Heap) (t : TypeO) : Heap × List Addr :=
+  match t.kind with
+  | .input =>
+    let r1 := extendArgs cfg.extInputPy N h t.fields
+    let r2 := buildArgs Nin r1.1 (assocD ext.inputFields t.name)
+    (r2.1, r1.2 ++ r2.2)
+  | .object | .interface =>
+    let r1 := extendFields cfg N h t.fields
+    let r2 := buildFields N r1.1 (assocD ext.fields t.name)
+    (r2.1, r1.2 ++ r2.2)
+  | _ => (h, [])
+
+/-- the constructor call of `_extend_object_type` / `_extend_interface_type` / `_extend_union_type` /
+    `_extend_enum_type` / `_extend_input_object_type` / `_extend_scalar_type`: which attributes are passed on -/
+def rebuiltType (cfg : Cfg) (ext : Ext) (N : List (String × Addr)) (t : TypeO) (fields : List Addr) : TypeO :=
+  { t with
+    fields := fields
+    ifaces := repointRefs N t.ifaces
+    members := repointRefs N t.members ++ (assocD ext.members t.name).map fun m => ⟨m, (lookup N m).getD 0⟩
+    desc := if t.kind == Kind.union && !cfg.extUnionDesc then none else t.desc
+    rtype := match t.kind with
+             | .interface => if cfg.extIfaceRtype then t.rtype else none
+             | .union => if cfg.extUnionRtype then t.rtype else none
+             | _ => t.rtype
+    dres := if t.kind == Kind.object && !cfg.extObjDres then none else t.dres
+    values := t.values ++ (assocD ext.values t.name).map fun v => v ++ "|None|None" }
+
+/-- the rebuilt object is written at the placeholder `na` of its name -/
 def extendOne (cfg : Cfg) (ext : Ext) (N Nin : List (String × Addr)) (h : Heap) (t : TypeO) (na : Addr) : Heap :=
-  let r : Heap × List Addr :=
-    match t.kind with
-    | .input =>
-      let r1 := extendArgs cfg.extInputPy N h t.fields
-      let r2 := buildArgs Nin r1.1 (assocD ext.inputFields t.name)
-      (r2.1, r1.2 ++ r2.2)
-    | .object | .interface =>
-      let r1 := extendFields cfg N h t.fields
-      let r2 := buildFields N r1.1 (assocD ext.fields t.name)
-      (r2.1, r1.2 ++ r2.2)
-    | _ => (h, [])
-  let t' : TypeO :=
-    { t with
-      fields := r.2
-      ifaces := repointRefs N t.ifaces
-      members := repointRefs N t.members ++ (assocD ext.members t.name).map fun m => ⟨m, (lookup N m).getD 0⟩
-      desc := if t.kind == .union && !cfg.extUnionDesc then none else t.desc
-      rtype := match t.kind with
-               | .interface => if cfg.extIfaceRtype then t.rtype else none
-               | .union => if cfg.extUnionRtype then t.rtype else none
-               | _ => t.rtype
-      dres := if t.kind == .object && !cfg.extObjDres then none else t.dres
-      values := t.values ++ (assocD ext.values t.name).map fun v => v ++ "|None|None" }
-  r.1.write na (.type t')
+  let r := extendKids cfg ext N Nin h t
+  r.1.write na (.type (rebuiltType cfg ext N t r.2))
 
 def extendAll (cfg : Cfg) (ext : Ext) (N Nin P : List (String × Addr)) : Heap → Heap → List (String × Addr) → Heap
   | _, h, [] => h
